@@ -1,2 +1,188 @@
-// Package c04: correspondence harness for property C04 (stub — registers nothing yet).
+// Package c04: a task or detector belongs to at most one environment.
+//
+// Scenarios (harness/ownh input format) with 2–4 environments that share hosts
+// and detectors run on the REAL core through the whole-core simulator: rounds of
+// 1–3 concurrently issued create / control / destroy / cleanup requests. After
+// every round the core's GetEnvironments / GetTasks / GetTask / GetActiveDetectors
+// and the simulated master's task table (KILL calls) are recorded; the Lean
+// monitor (Driver/OwnCommon over Model/Own) must explain every round by some
+// interleaving of the operations' atomic parts, and Spec.C04 is evaluated on the
+// observed views.
 package c04
+
+import (
+	"fmt"
+
+	"verifharness/fw"
+	"verifharness/ownh"
+	"verifharness/rng"
+	"verifharness/sx"
+)
+
+// fixed scenarios run on every check: the refused creation, the concurrent
+// creations that race for a detector, cleanup requests naming owned tasks.
+func fixed() []fw.Case {
+	var cs []fw.Case
+	add := func(tag string, b *ownh.B) { cs = append(cs, fw.Case{Input: b.String(), Tags: []string{tag}}) }
+
+	// sequential conflict: the second creation is refused and disturbs nothing
+	for _, st := range []string{"", "START"} {
+		b := &ownh.B{}
+		a := b.Env("ok", []int{1}, ownh.OKT(1, 1), ownh.OKT(2, 3))
+		c := b.Env("ok", []int{2, 3}, ownh.OKT(11, 1), ownh.OKT(12, 2))
+		d := b.Env("ok", []int{3}, ownh.OKT(21, 1))
+		b.Round(ownh.New(a))
+		if st != "" {
+			b.Round(ownh.Ctl(a, st))
+		}
+		b.Round(ownh.New(c)).Round(ownh.New(d)).Round(ownh.Destroy(a, false, true, false)).Round(ownh.New(c + 2))
+		b.Env("ok", []int{2}, ownh.OKT(31, 1))
+		add("fixed-conflict", b)
+	}
+	// concurrent creations needing the same detector (ITS through h1 and h2)
+	for n := 2; n <= 3; n++ {
+		b := &ownh.B{}
+		var ops []*sx.Node
+		for i := 0; i < n; i++ {
+			k := b.Env("ok", []int{1 + i%2}, ownh.OKT(ownh.Cls(i, 0), 1+i), ownh.OKT(ownh.Cls(i, 1), 4))
+			ops = append(ops, ownh.New(k))
+		}
+		b.Round(ops...).Round(ownh.Cleanup()).Round(ownh.Destroy(0, true, false, false), ownh.Destroy(1, false, false, false))
+		add("fixed-create-race", b)
+	}
+	// cleanup / kill requests naming tasks of live environments; control of one while the other is destroyed
+	{
+		b := &ownh.B{}
+		a := b.Env("ok", []int{1}, ownh.OKT(1, 1), ownh.OKT(2, 2))
+		c := b.Env("ok", []int{3}, ownh.OKT(11, 1), ownh.OKT(12, 2))
+		b.Round(ownh.New(a), ownh.New(c)).Round(ownh.KillEnv(a), ownh.Cleanup(), ownh.KillEnv(c)).
+			Round(ownh.Ctl(a, "START"), ownh.Destroy(c, false, false, true)).
+			Round(ownh.KillEnv(a), ownh.Cleanup()).Round(ownh.Ctl(a, "STOP")).Round(ownh.Destroy(a, false, false, false))
+		add("fixed-cleanup", b)
+	}
+	return cs
+}
+
+func genCase(r *rng.R) fw.Case {
+	b := &ownh.B{}
+	reuse := r.P(1, 10)
+	b.Reuse = reuse
+	nEnv := r.Range(2, 4)
+	for i := 0; i < nEnv; i++ {
+		b.RandEnv(r, ownh.EnvOpts{FailP: 120, HookP: 80, CallP: 60, SameCls: reuse})
+	}
+	created := []int{} // created in an earlier round (successfully or not)
+	next := 0
+	nRounds := r.Range(3, 7)
+	maxPar := 3
+	if reuse {
+		maxPar = 2
+	}
+	tags := []string{}
+	par := false
+	for i := 0; i < nRounds; i++ {
+		n := 1
+		if r.P(1, 2) {
+			n = r.Range(2, maxPar)
+		}
+		var ops []*sx.Node
+		var newHere []int
+		// DestroyEnvironment's STOP / RESET / teardown are separate critical sections: a control request on the
+		// same environment can slip in between; such pairs are not generated (two destroys of one environment are)
+		touched := map[int]string{}
+		for j := 0; j < n; j++ {
+			switch {
+			case next < nEnv && (len(created) == 0 || r.P(2, 5)):
+				ops = append(ops, ownh.New(next))
+				newHere = append(newHere, next)
+				next++
+			case len(created) == 0:
+				ops = append(ops, ownh.Cleanup())
+			default:
+				k := rng.Pick(r, created)
+				kind := r.N(10)
+				isDestroy := (kind >= 3 && kind <= 5)
+				if prev, ok := touched[k]; ok && !(prev == "destroy" && isDestroy) {
+					ops = append(ops, ownh.Cleanup())
+					continue
+				}
+				if isDestroy {
+					touched[k] = "destroy"
+				} else {
+					touched[k] = "other"
+				}
+				switch kind {
+				case 0, 1, 2:
+					ops = append(ops, ownh.Ctl(k, rng.Pick(r, []string{"START", "START", "STOP", "RESET", "CONFIGURE"})))
+				case 3, 4, 5:
+					ops = append(ops, ownh.Destroy(k, r.P(1, 3), r.P(1, 2), r.P(1, 3)))
+				case 6, 7:
+					ops = append(ops, ownh.Cleanup())
+				case 8:
+					ops = append(ops, ownh.KillEnv(k))
+				default:
+					ops = append(ops, ownh.Rel(k))
+				}
+			}
+		}
+		if len(ops) > 1 {
+			par = true
+		}
+		b.SafeRound(ops...)
+		created = append(created, newHere...)
+	}
+	if reuse {
+		tags = append(tags, "reuse")
+	}
+	if par {
+		tags = append(tags, "concurrent-round")
+	} else {
+		tags = append(tags, "sequential")
+	}
+	tags = append(tags, fmt.Sprintf("envs=%d", nEnv))
+	return fw.Case{Input: b.String(), Tags: tags}
+}
+
+func generate(tier string, r *rng.R) []fw.Case {
+	n := 150
+	if tier == "thorough" {
+		n = 1500
+	}
+	cs := fixed()
+	for i := 0; i < n; i++ {
+		cs = append(cs, genCase(r.Fork()))
+	}
+	return cs
+}
+
+func nontrivial(input, obs string) bool {
+	envs, rounds, ops, creates, _ := ownh.Shape(input)
+	return envs >= 2 && rounds >= 3 && ops >= 4 && creates >= 2
+}
+
+func init() {
+	fw.Register(&fw.Property{
+		ID:         "C04",
+		Generate:   generate,
+		RunImpl:    ownh.RunRetry,
+		Nontrivial: nontrivial,
+		Rule: "fixed scenarios (refused creation next to live environments, 2–3 concurrent creations needing one detector, cleanup/kill requests naming owned tasks) " +
+			"then random scenarios: 2–4 environments with 1–3 tasks each on 4 shared hosts / 3 detectors, 3–7 rounds of 1–3 concurrently issued requests " +
+			"(create, START/STOP/RESET/CONFIGURE, destroy with random force/allowInRunningState/keepTasks, CleanupTasks for all or for one environment's tasks), " +
+			"12% of roles with a scripted launch/configure/transition failure, 8% of environments with DESTROY hooks, 10% of scenarios with reuseUnlockedTasks; " +
+			"each scenario = one real core in its own process; non-trivial = >=2 environments, >=3 rounds, >=4 requests, >=2 creations; distinct by input text",
+		Shrink:  ownh.Shrink,
+		Workers: 6,
+		TrustedBase: []string{
+			"harness/sim (whole-core simulator: Mesos master/agents/executors, Consul KV, workflow repository) and /repo/core/verif_hooks.go (core.RunForVerif)",
+			"harness/ownh (scenario engine: canonical names from the master's task table, settled snapshots through the gRPC API, hang diagnosis)",
+			"Driver/OwnCommon.lean (monitor: interleaving search, oracles read off the observation, view rendering)",
+		},
+		Assumptions: []string{
+			"ownership of a task only goes none → E → none within a scenario, so a task that got a KILL call in a round and is still referenced by a live environment after the round was owned at the instant of the KILL",
+			"the simulated master answers KILL at once (fairness premise: the master eventually reports killed tasks)",
+			"executor/agent failure and reconciliation are not exercised here (C18)",
+			"a creation whose deployment times out with nothing scripted to fail (resourceOffers outcome dropped because the simulated master offers within microseconds of REVIVE) is counted inconclusive",
+		},
+	})
+}
